@@ -14,6 +14,7 @@ SHAPES3 = ["N(N(L))", "N(A(L,L))", "N(O(L,L))", "A(L,N(L))", "O(L,N(L))", "A(N(L
            "A(O(L,L),O(L,L))", "O(A(L,L),A(L,L))", "A(O(L,L),A(L,L))", "O(O(L,L),A(L,L))"]
 
 FORMS = ["select", "select-alias", "update", "delete", "linked", "join-on", "join-where"]
+GJOIN_FORMS = ["gjoin-where", "gjoin-on"]  # sharded table joined with a global table; the other column is the global table's
 
 RUN_MODULE = """---- MODULE RoutingRun ----
 EXTENDS %(base)s, RoutingRules
